@@ -93,6 +93,26 @@ def peer (s : S) (p : Packet) : S × List SOut :=
 
 def wrote (auto : Bool) (p : Packet) : SOut := if auto then .wroteAutoId p else .out (.wrote p)
 
+/-! ### identifiers the library assigns
+
+A request that comes without an identifier is given one by the library.  The
+property fixes no value; it demands that the identifier is non-zero (MQTT-2.3.1-1),
+fits the 16-bit field and differs from the identifiers of the requests in flight
+on the connection (`idAllowed`).  The reference client therefore never computes
+such an identifier: where a run has to go on after such a request (its
+acknowledgement has to find it) the request is known by a *name* outside the
+16-bit range (`autoName`), which no identifier on the wire can equal, and the
+acknowledgement names the request, not a number. -/
+
+/-- identifiers of the requests in flight (PUBLISH QoS 1/2, SUBSCRIBE, UNSUBSCRIBE share one space) -/
+def inFlight (s : S) : List Nat := (s.pubs1 ++ s.pubs2 ++ s.subs ++ s.unsubs).map (·.id)
+
+/-- what is demanded of an identifier the library assigns in state `s` -/
+def idAllowed (s : S) (id : Nat) : Bool := id != 0 && id < 65536 && !(inFlight s).contains id
+
+/-- the name of the `n`-th request of a run whose identifier the library assigns -/
+def autoName (n : Nat) : Nat := 65536 + n
+
 def apiWrite (s : S) : Api → List SOut
   | .publish p _ => if p.qos == 0 then [.out (.wrote (.publish { p with pktid := 0 }))] else [wrote (p.pktid == 0) (.publish p)]
   | .subscribe id topics _ _ => [wrote (id == 0) (.subscribe id topics)]
